@@ -169,6 +169,6 @@ def check(run: Run, prog: Program, cy: CyProgram, sites):
     z1(run, prog)
     n = report_sites(run, "Z2", sites,
                      lambda s: "resistive_network" in s.func.module.relpath)
-    run.floor("Z2 call sites", n, 2)
+    run.floor("Z2 call sites", n, 1)
     z3(run, prog)
     z5(run, prog)
